@@ -1,2 +1,3 @@
+import Rs1090.Props.C01
 import Rs1090.Props.C13
 import Rs1090.Props.C18
